@@ -709,22 +709,22 @@ def trained_curv(ctx, nx=2, nT=1, logX=False, broadcast=True, fault=False):
 # ----------------------------------------------------------------------------------------------------------------------
 # rebuilt from the saved file
 
-def _jsonify(o):
-    """what json.dump(cls=NumpyEncoder) followed by json.load does to the data (floats survive repr round trips)"""
+def _jsonify(o, enc):
+    """what json.dump(cls=NumpyEncoder) followed by json.load does to the data: dict keys become strings, tuples lists,
+    objects json does not know go through the REAL encoder's default(); numbers survive (repr round trip of doubles)"""
+    from vk.core import is_sym
     if isinstance(o, dict):
         out = {}
         for k, v in o.items():
             if not isinstance(k, (str, int, float, bool)) and k is not None:
                 raise TypeError("keys must be str, int, float, bool or None")
-            out[k if isinstance(k, str) else str(k)] = _jsonify(v)
+            out[k if isinstance(k, str) else str(k)] = _jsonify(v, enc)
         return out
     if isinstance(o, (list, tuple)):
-        return [_jsonify(v) for v in o]
-    if isinstance(o, _np.ndarray):
-        return _jsonify(o.tolist())
-    if isinstance(o, (_np.bool_, _np.integer)):
-        raise TypeError("Object of type %s is not JSON serializable" % type(o).__name__)
-    return o
+        return [_jsonify(v, enc) for v in o]
+    if o is None or isinstance(o, (str, bool, int, float)) or is_sym(o):
+        return float(o) if isinstance(o, _np.floating) else o
+    return _jsonify(enc.default(o), enc)
 
 
 class _JsonStub:
@@ -735,9 +735,7 @@ class _JsonStub:
         return getattr(self._real, n)
 
     def dump(self, data, f, cls=None, **kw):
-        if cls is not _mod_surr.NumpyEncoder:
-            raise TypeError("ndarray is not JSON serializable")
-        self._fs[f.name] = _jsonify(data)
+        self._fs[f.name] = _jsonify(data, (cls or self._real.JSONEncoder)())
 
     def load(self, f, **kw):
         return self._fs[f.name]
